@@ -67,6 +67,10 @@ def gen(rng, idx, tier, seed):
         spec['dhour'] = int(rng.choice([30, 48, 72, 100]))
     # hand-built source whose NCOLS/NROWS/NLAYS attributes are stale
     spec['stale_attrs'] = bool(rng.random() < 0.3)
+    if fmt == 'uamiv' and rng.random() < 0.2:
+        # the same layout written on a little-endian machine, read with the
+        # reader's endian keyword (direction B only)
+        spec['little_endian'] = True
     return spec
 
 
@@ -74,6 +78,8 @@ def open_lib(fmt, path, spec, reader='Memmap'):
     from PseudoNetCDF.camxfiles import Memmaps, Readers
     mod = Memmaps if reader == 'Memmap' else Readers
     R = getattr(mod, fmt)
+    if fmt == 'uamiv' and spec.get('little_endian') and reader == 'Memmap':
+        return R(path, endian='little')
     if fmt in ('uamiv', 'lateral_boundary'):
         return R(path)
     return R(path, spec['ny'], spec['nx'])
@@ -282,8 +288,12 @@ def run(spec, res):
     from PseudoNetCDF.pncgen import pncgen
     fmt = spec['fmt']
     img = refcamx.encode(spec)
+    if spec.get('little_endian'):
+        img = refcamx.to_little_endian_uamiv(img)
     c = refcamx.content(spec)
     facets = ['fmt:' + fmt, 'nt:%d' % spec['nt']]
+    if spec.get('little_endian'):
+        facets.append('little-endian')
     ncell = spec['nx'] * spec['ny']
     dg = digest(spec)
     with harness.casedir() as d:
